@@ -100,6 +100,28 @@ def run(ctx):
           lambda x: (inner[x[0]]['first'] + x[1] - 1, (inner[x[0]]['year'], inner[x[0]]['month'], x[1])), 'lunar -> civil -> lunar is the identity for every valid lunar date',
           lambda x: '%s-%s-%d' % (inner[x[0]]['year'], inner[x[0]]['month'], x[1]), fn_site(p, 'LunarDay::get_solar_day'))
 
+    # ---- the same conversions at the level of instants: an instant's lunar hour sits in the same (possibly leap) month as its day and converts back to the instant
+    def t2l(x):
+        n, sec = x
+        st = cm.solar_time_n(n, sec)
+        lh = t.m(st, 'get_lunar_hour')
+        ld = t.m(lh, 'get_lunar_day')
+        key = (py(t.m(ld, 'get_year')), py(t.m(ld, 'get_month')), py(t.m(ld, 'get_day')), py(t.m(lh, 'get_hour')), py(t.m(lh, 'get_minute')), py(t.m(lh, 'get_second')))
+        back = t.m(lh, 'get_solar_time')
+        return (key, (cm.n_of(back.f['day']), py(back.f['hour']) * 3600 + py(back.f['minute']) * 60 + py(back.f['second'])))
+
+    def t2l_orc(x):
+        n, sec = x
+        (y, m, d), _ = s2l_orc(n)
+        return ((y, m, d, sec // 3600, sec // 60 % 60, sec % 60), (n, sec))
+    leap_recs = [r for r in inner if r['month'] < 0]
+    tdom = sorted(set([(r['first'] + k, s) for r in leap_recs for k in (0, 1, r['count'] - 1) for s in (0, 45015, 86399)]
+                      + [(r['first'] - 1, 86399) for r in leap_recs] + [(r['first'] + r['count'], 0) for r in leap_recs]
+                      + [(inner[1]['first'] + 3, 3600), (inner[-2]['first'], 84600)]))
+    table(ctx, 'PETE-SCENARIO', 'SolarTime::get_lunar_hour', tdom, t2l, t2l_orc,
+          'instant -> lunar hour -> instant is the identity and the lunar hour lies in the lunar day of its civil day (inside, just before and just after a leap month)',
+          lambda x: '%d-%02d-%02d +%ds' % (CAL.from_jdn(x[0]) + (x[1],)), fn_site(p, 'SolarTime::get_lunar_hour'))
+
     # ---- do the REAL month records tile across lunar years? (table + month-1 offset logic, no series values)
     from rules import c03 as _c03
     try:
